@@ -263,7 +263,8 @@ class _TCPPooling:
 
     def _dispatch_incoming(self, connection, msg):
         if msg.code == 0:
-            pass
+            # Empty messages are ignored (RFC 8323 Section 3.4)
+            return
 
         if msg.code.is_response():
             self._tokenmanager.process_response(msg)
